@@ -13,6 +13,11 @@ bound conditions, the closed-form one-component estimate, the density of data po
 Track groups are also treated as OBJECTS with a history: one group is analysed, edited (in place: filter,
 remove_tracks_in_rect, remove, extend, split, merge; or replaced by / set aside for a copy, slice, sum, filter_tracks
 result) and analysed again after every edit; each analysis is judged on the tracks the group object holds at that moment.
+Amplitudes cover the whole interval the optimiser searches, [1e-9, 1 - 1e-9] (rare populations, the bounds themselves), and
+every gradient entry is judged on the scale of the terms it sums.  During every DwelltimeModel fit the harness also looks
+over the optimiser's shoulder: the gradient SLSQP is handed when it asks for one is recorded (not altered) and three of
+these requests per fit (first, last, smallest amplitude) are compared with the model's Jacobian and with the oracle's
+numerical gradient of the log-likelihood at that very point.
 """
 import itertools
 import math
@@ -47,11 +52,18 @@ RULE = (
     "small scope (likelihood: 1-3 components on a grid of amplitudes in quarters and lifetimes in {0.1,1,10}, windows "
     "{0,0.5}x{2,50,inf}, steps {None,0.25,0.5}; amplitude constraint: every mask and every amplitude vector over "
     "{0,1/4,1/2,1} for n<=3; extraction: every group of <=3 tracks over two kymographs of 4 and 3 lines, all four flag "
-    "combinations) + seeded random streams: 'lik' (1-3 components, amplitudes on the simplex >=1e-3, lifetimes over 3 "
+    "combinations) + seeded random streams: 'lik' (1-3 components, amplitudes on the simplex: well populated (>=1e-3) and, in "
+    "four of ten mixtures, with one to n-1 rare components anywhere between the optimiser's amplitude bound 1e-9 and 1e-3 -- "
+    "on the bound, just inside it, at powers of ten -- half of which are given one dwell time drawn from them alone; the "
+    "small scope has the amplitude vectors (1-1e-9, 1e-9), (1e-6, 1-1e-6), (1-1e-3, 1e-3), (1e-9, 1-2e-9, 1e-9), "
+    "(0.5, 1e-6, 0.5-1e-6) besides the quarters; lifetimes over 3 "
     "decades, scalar or per-observation (tmin,tmax,step), 1-2000 observations, continuous/discretised, tmax finite/inf, "
     "windows from 0.05 to 100 lifetimes), 'fit' (DwelltimeModel on 20-2000 sampled dwell times; its pdf() is read inside, at the "
     "edges of and just outside every observation window -- scalar limits and 2-3 different per-observation windows -- and "
-    "integrated over the union of the windows with panel boundaries at every window edge), 'constraint' (random "
+    "integrated over the union of the windows with panel boundaries at every window edge; the gradient SLSQP is handed during "
+    "the fit is recorded at every request and compared, at the first and last request and the one with the smallest "
+    "amplitude among those inside the explored parameter family, with the model's Jacobian and the oracle's numerical "
+    "gradient at that point), 'constraint' (random "
     "masks/amplitudes incl. invalid), 'extract' (1-3 kymographs, <=12 tracks, tracks in the first/last line, zero-length "
     "tracks, missing minimum durations, directly and through fit_binding_times), 'extract-seq' (ONE group object over 1-4 "
     "kymographs that is analysed, then edited one to five times -- in place by filter(minimum_length/minimum_duration), "
@@ -78,6 +90,12 @@ ASSUMPTIONS = [
     "since both are read from the shared Kymo object)",
     "generated likelihood cases keep tmin/tau_min <= 60 and (tmax-tmin)/tau_max >= 0.05 so that neither exp underflow "
     "nor catastrophic cancellation in the normalisation decides the comparison",
+    "admissible amplitudes are those the optimiser may hand to the likelihood and its gradient: the interval [1e-9, 1 - 1e-9] "
+    "of _exponential_mle_bounds (an amplitude of exactly zero has no two-sided numerical gradient and is not generated)",
+    "gradient requests SLSQP makes during a fit are compared only when the requested point lies inside the family the 'lik' "
+    "stream explores (amplitudes within the optimiser's bounds, lifetimes within three decades of each other, "
+    "tmin/tau_min <= 60, (tmax-tmin)/tau_max >= 0.05, dwell times <= 1e5 tau_min, 5e-5 <= step/tau <= 30); requests with a "
+    "lifetime on the search bounds 1e-8 s / 1e8 s are counted in the coverage record, not judged",
     "DwelltimeModel.pdf of the discretised model masks x >= tmax, i.e. it does not draw the bin of the largest "
     "observable dwell time; only its values inside the window are tied, its integral is asserted for the continuous model only",
     "for data pooled from several observation windows the density pdf() has to report is read as the mixture of the "
@@ -91,6 +109,9 @@ ASSUMPTIONS = [
 ]
 
 LD = np.longdouble
+# rounding of one evaluation of the oracle's log-likelihood, per unit of `nll_scale`: the stencil of `o_numgrad` passes on
+# at most 1.8 eps * nll_scale / step when every rounding error points the same way; 50 times that is allowed
+NUM_EPS = 1e2 * float(np.finfo(LD).eps)
 _DROPPED = {}  # generator cases moved away from a floating-point tie of a decision the code takes
 _LAST = {}  # canonical(case) -> impl answers (ops of 'fit' cases need the fitted parameters)
 
@@ -201,13 +222,24 @@ def o_nll(amps, taus, t, tmin, tmax, step):
     return -np.sum(np.log(o_density(amps, taus, t, tmin, tmax, step)))
 
 
+def num_steps(amps, taus, t, tmax):
+    """steps of the difference quotients, amplitudes then lifetimes: 5e-3 of the parameter; for a lifetime not more than
+    what moves t/tau of the longest time involved (dwell time or finite upper limit) by 0.05 -- the shares of two
+    components with close lifetimes in the density at t trade places over a change of t/tau of order one, and a stencil
+    that is wider than that is off by more than the 1e-6 it is read to (t/tau = 90, lifetimes 4 % apart: 2e-5)"""
+    far = [float(v) for v in np.atleast_1d(t)] + [float(v) for v in np.atleast_1d(tmax) if math.isfinite(float(v))]
+    tm = max(far) if far else 0.0
+    return [5e-3 * float(a) for a in amps] + [float(tau) * min(5e-3, 0.05 * float(tau) / tm if tm > 0 else 5e-3) for tau in taus]
+
+
 def o_numgrad(amps, taus, t, tmin, tmax, step):
     """6th-order central differences of the oracle's negative log-likelihood, amplitudes then lifetimes"""
     p0 = np.array(list(amps) + list(taus), dtype=LD)
     n = len(amps)
+    steps = num_steps(amps, taus, t, tmax)
     g = []
     for j in range(2 * n):
-        h = LD(5e-3) * p0[j]
+        h = LD(steps[j])
         acc = LD(0)
         for k, c in ((1, 45), (2, -9), (3, 1)):
             for s in (1, -1):
@@ -225,6 +257,45 @@ def grad_scale(case_or_params, t, tmax):
     sa = [n / a for a in amps]
     st = [n * (1.0 + tm / tau) / tau for tau in taus]
     return np.array(sa + st)
+
+
+def grad_terms_scale(amps, taus, t, tmin, tmax, step):
+    """the size of the terms the gradient is a sum of (amplitudes then lifetimes): observation i contributes to
+    d(log L)/d(a_j) the share r_ij of component j in the density at t_i and its share w_ij in the window probability,
+    each divided by a_j, and to d(log L)/d(tau_j) the same shares times a logarithmic derivative of size
+    (3 + t_i/tau_j)/tau_j.  For a rare component these sums are of the order n instead of the worst-case n/a_j of
+    `grad_scale`; an absolute tolerance that is a small multiple of them still looks at every entry of the gradient"""
+    a = np.asarray(amps, dtype=LD)[:, None]
+    tau = np.asarray(taus, dtype=LD)[:, None]
+    t, tmin, tmax = (np.asarray(v, dtype=LD)[None, :] for v in (t, tmin, tmax))
+    with np.errstate(all="ignore"):
+        emax = np.where(np.isfinite(tmax), np.exp(-np.where(np.isfinite(tmax), tmax, 0) / tau), LD(0))
+        if step is None:
+            logg = -np.log(tau) - t / tau
+            win = np.exp(-tmin / tau) - emax
+        else:
+            d = np.asarray(step, dtype=LD)[None, :]
+            x = np.exp(-d / tau)
+            logg = np.log(tau) + 2 * np.log(1 - x) - (t - d) / tau
+            win = tau * (1 - x) * (np.exp(-(tmin - d) / tau) - emax)
+        la = np.log(a) + logg
+        r = np.exp(la - np.max(la, axis=0, keepdims=True))
+        r = r / np.sum(r, axis=0, keepdims=True)
+        w = a * win / np.sum(a * win, axis=0, keepdims=True)
+        share = np.nan_to_num(r + w, nan=2.0, posinf=2.0)
+        sa = np.sum(share, axis=1) / a[:, 0]
+        st = np.sum(share * (3 + t / tau) / tau, axis=1)
+    return np.array([float(v) for v in sa] + [float(v) for v in st])
+
+
+def grad_tolerance(amps, taus, t, tmin, tmax, step, factor, eps):
+    """absolute tolerance per gradient entry: `factor` times the size of the summed terms, plus the rounding `eps` of
+    one likelihood evaluation carried through the oracle's difference quotient (0 for none); never above `factor`
+    times the worst-case scale"""
+    worst = grad_scale((amps, taus), t, None)
+    terms = grad_terms_scale(amps, taus, t, tmin, tmax, step)
+    floor = eps * nll_scale(amps, taus, t) / np.array(num_steps(amps, taus, t, tmax))
+    return np.minimum(factor * worst, factor * terms + floor)
 
 
 def nll_scale(amps, taus, t):
@@ -497,7 +568,18 @@ def _impl(case):
         status = []
         real_minimize = scipy.optimize.minimize
 
+        visited = []  # (point, gradient) of every request of the optimiser for the gradient, in order
+
         def spy(*a, **kw):  # observe (not alter) what SLSQP says about its own result; pylake does not look at it
+            jac = kw.get("jac")
+            if callable(jac):  # ... and what it is handed when it asks for the gradient
+
+                def jac_seen(x, *args):
+                    g = jac(x, *args)
+                    visited.append((np.array(x, dtype=float), np.array(g, dtype=float)))
+                    return g
+
+                kw = dict(kw, jac=jac_seen)
             res = real_minimize(*a, **kw)
             status.append("converged" if res.success else f"slsqp-status-{res.status}")
             return res
@@ -518,6 +600,7 @@ def _impl(case):
         status = status[-1] if status else "nothing-to-fit"
         amps, taus = np.array(m.amplitudes, dtype=float), np.array(m.lifetimes, dtype=float)
         out = []
+        picked = pick_visited(case, visited)
         for what in fit_layout(case):
             try:
                 if what == "ll":
@@ -543,6 +626,8 @@ def _impl(case):
                     out.append(enc_float(float(np.sum(w * np.sum(np.atleast_2d(m.pdf(x)), axis=0)))))
                 elif what == "mle1":
                     out.append(enc_float(taus[0]))
+                elif what.startswith("jacvis"):
+                    out.append(picked[int(what[6:])])
             except Exception as e:
                 out.append(errname(e))
         # derived analyses must not alter what the fitted model reports (refits start from the model's own
@@ -624,7 +709,70 @@ def fit_layout(case):
         lay.append("quadpool")
     if case["ncomp"] == 1 and case["step"] is None and not isinstance(case["tmax"], list) and to_f(case["tmax"]) == math.inf:
         lay.append("mle1")
+    # the gradient the optimiser was handed during this very fit, at three of the points at which it asked for it
+    lay.extend(["jacvis0", "jacvis1", "jacvis2"])
     return lay
+
+
+def full_params(case, x):
+    """the parameter vector (amplitudes, lifetimes) behind a point of the optimiser's search space: a one-component model
+    has its amplitude fixed at one and searches the lifetime only"""
+    x = [float(v) for v in x]
+    return ([1.0] + x) if case["ncomp"] == 1 and len(x) == 1 else x
+
+
+def searched_entries(case):
+    """positions of the searched parameters within (amplitudes, lifetimes)"""
+    return [1] if case["ncomp"] == 1 else list(range(2 * case["ncomp"]))
+
+
+def within_explored_family(case, params):
+    """is a point of the optimiser's path inside the family of parameter sets the 'lik' stream explores (ASSUMPTIONS:
+    amplitudes within the optimiser's bounds, lifetimes within three decades of each other, tmin/tau_min <= 60,
+    (tmax - tmin)/tau_max >= 0.05, dwell times below 1e5 tau_min, 5e-5 <= step/tau <= 30)?  SLSQP also probes lifetimes
+    on the search bounds (1e-8 s, 1e8 s) where exp() underflows and the window probability cancels; nothing is
+    asserted about the gradient there"""
+    nc = case["ncomp"]
+    if len(params) != 2 * nc or not all(math.isfinite(v) for v in params):
+        return False
+    amps, taus = params[:nc], params[nc:]
+    if min(amps) < 0.5 * AMP_LO or max(amps) > 1.0 or min(taus) <= 0.0:
+        return False
+    n = len(case["t"])
+    tmin, tmax = arr(case["tmin"], n), arr(case["tmax"], n)
+    lo, hi = min(taus), max(taus)
+    ok = hi / lo <= 1e3 and float(np.max(tmin)) / lo <= 60.0 and max(case["t"]) / lo <= 1e5
+    ok = ok and float(np.min(tmax - tmin)) / hi >= 0.05
+    if case["step"] is not None:
+        st = arr(case["step"], n)
+        ok = ok and float(np.max(st)) / lo <= 30.0 and float(np.min(st)) / hi >= 5e-5
+    return bool(ok)
+
+
+def pick_visited(case, visited):
+    """three of the optimiser's gradient requests inside the explored family: the first one, the last one and the one with
+    the smallest amplitude (a superfluous component is pushed towards the amplitude bound); as
+    '<parameters> <gradient handed over> <which request>' or 'none'"""
+    nc = case["ncomp"]
+    good = [(i, full_params(case, x), g) for i, (x, g) in enumerate(visited)]
+    good = [(i, p, g) for i, p, g in good if len(g) == len(searched_entries(case)) and within_explored_family(case, p)]
+    case["_visited"] = (len(visited), len(good))
+    if not good:
+        return ["none"] * 3
+    chosen = [good[0], good[-1], min(good, key=lambda e: (min(e[1][:nc]), e[0]))]
+    return [f"{fl(p)} {fl(g)} request-{i + 1}-of-{len(visited)}" for i, p, g in chosen]
+
+
+def visited_of(case, what):
+    """(parameters, gradient handed over) of the observed gradient request `what` of the last run of this case"""
+    ia = _LAST.get(canonical(case))
+    lay = fit_layout(case)
+    if not ia or len(ia) != len(lay):
+        return None
+    toks = ia[lay.index(what)].split(" ")
+    if len(toks) != 3:
+        return None
+    return dec_fl(toks[0]), dec_fl(toks[1])
 
 
 def pdf_points(case):
@@ -778,6 +926,13 @@ def ops(case):
                            f"{fl(x)} {fl(w)}")
             elif what == "mle1":
                 out.append(f"c15.mle1 {fl(case['t'])} {fl(arr(case['tmin'], n))}")
+            elif what.startswith("jacvis"):
+                v = visited_of(case, what)
+                if v is None:  # no request inside the explored family: nothing to ask (any well-formed op; answer unused)
+                    out.append(f"c15.bounds {enc_float(np.min(arr(case['tmin'], n)))} {enc_float(np.max(arr(case['tmax'], n)))}")
+                else:
+                    nc = case["ncomp"]
+                    out.append(f"c15.jac {fl(v[0][:nc])} {fl(v[0][nc:])} {lik_tokens(case)}")
         return out
     if k == "constraint":
         mask = "N" if case["mask"] is None else enc_list(case["mask"], enc_bool)
@@ -887,8 +1042,10 @@ def agree(case, i, ia, ma):
                 )
             if i == 2:
                 A, B = dec_fl(ia), dec_fl(ma)
-                sc = grad_scale((amps, taus), t, None)
-                return len(A) == len(B) and all(close(x, y, 1e-9, 1e-10 * s) for x, y, s in zip(A, B, sc))
+                n = len(t)
+                tol = grad_tolerance(amps, taus, t, arr(case["tmin"], n), arr(case["tmax"], n),
+                                     None if case["step"] is None else arr(case["step"], n), 1e-10, 0.0)
+                return len(A) == len(B) and all(close(x, y, 1e-9, s) for x, y, s in zip(A, B, tol))
             return close(dec_float(ia), dec_float(ma), 1e-9, 1e-12)
         if k == "fit":
             lay = fit_layout(case)
@@ -918,6 +1075,15 @@ def agree(case, i, ia, ma):
                 )
             if what == "quadpool":
                 return close(dec_float(ia), dec_float(ma), 1e-9)
+            if what.startswith("jacvis"):
+                v = visited_of(case, what)
+                if v is None:
+                    return ia == "none"
+                nc = case["ncomp"]
+                G, M = v[1], [dec_fl(ma)[j] for j in searched_entries(case)]
+                tol = grad_tolerance(v[0][:nc], v[0][nc:], t, arr(case["tmin"], len(t)), arr(case["tmax"], len(t)),
+                                     None if case["step"] is None else arr(case["step"], len(t)), 1e-10, 0.0)
+                return len(G) == len(M) and all(close(x, y, 1e-9, tol[j]) for x, y, j in zip(G, M, searched_entries(case)))
             if what == "mle1":
                 # the optimiser's answer against the closed form: SLSQP stops at ftol=1e-6 on the likelihood
                 if _LAST.get(canonical(case), ["x x x x"])[0].split(" ")[-1].startswith("slsqp-status"):
@@ -994,9 +1160,11 @@ def oracle_lik(case, ia):
             return f"relabel-invariant: -log L = {nll!r}, after relabelling components with {case['perm']} {nllp!r}"
         g = dec_fl(ia[2])
         gn = o_numgrad(amps, taus, t, tmin, tmax, step)
-        gs = grad_scale((amps, taus), t, None)
+        # every entry is looked at on the scale of the terms it sums, not on the worst-case scale n/a_j: the entries that
+        # belong to a rare component are small, and they are exactly the ones an amplitude clamp or floor distorts
+        gs = grad_tolerance(amps, taus, t, tmin, tmax, step, 1e-7, NUM_EPS)
         for j in range(len(g)):
-            if not close(g[j], float(gn[j]), 1e-6, 1e-7 * gs[j]):
+            if not close(g[j], float(gn[j]), 1e-6, gs[j]):
                 which = f"amplitude {j}" if j < len(amps) else f"lifetime {j - len(amps)}"
                 return (f"gradient: analytic d(-log L)/d({which}) = {g[j]!r}, numerical gradient of the log-likelihood "
                         f"{float(gn[j])!r}")
@@ -1073,6 +1241,24 @@ def oracle_fit(case, ia):
                 return (f"pooled-density: DwelltimeModel.pdf({x!r}) sums to {got!r} over the components; the truncated "
                         f"mixture densities of the windows containing that point, weighted by their share of the data, "
                         f"give {ref!r}")
+    # the gradient the optimiser was handed during the fit is the gradient of the log-likelihood it minimises
+    seen = set()
+    for what in ("jacvis0", "jacvis1", "jacvis2"):
+        toks = ia[lay.index(what)].split(" ")
+        if len(toks) != 3 or toks[0] in seen:
+            continue
+        seen.add(toks[0])
+        p, g = dec_fl(toks[0]), dec_fl(toks[1])
+        nc = case["ncomp"]
+        with np.errstate(all="ignore"):
+            gn = o_numgrad(p[:nc], p[nc:], t, tmin, tmax, step)
+        tol = grad_tolerance(p[:nc], p[nc:], t, tmin, tmax, step, 1e-7, NUM_EPS)
+        for gj, j in zip(g, searched_entries(case)):
+            if not close(gj, float(gn[j]), 1e-6, tol[j]):
+                which = f"amplitude {j}" if j < nc else f"lifetime {j - nc}"
+                return (f"gradient-handed-to-the-optimiser: at amplitudes {p[:nc]}, lifetimes {p[nc:]} ({toks[2]} during this "
+                        f"fit) the optimiser was handed d(-log L)/d({which}) = {gj!r}; the numerical gradient of the "
+                        f"log-likelihood is {float(gn[j])!r}")
     if "mle1" in lay and converged:
         closed = float(np.mean(t - tmin))
         target = min(max(closed, lo), hi)
@@ -1371,11 +1557,41 @@ def simplex(rng, n):
             return a
 
 
-def gen_params(rng, n):
+AMP_LO, AMP_HI = 1e-9, 1.0 - 1e-9  # the amplitude interval the optimiser searches (_exponential_mle_bounds)
+
+
+def rare_amplitude(rng):
+    """the amplitude of a rare population: anywhere between the optimiser's lower bound and 1e-3, biased to the bound
+    itself, just inside it, and powers of ten"""
+    c = rng.randint(0, 9)
+    if c == 0:
+        return AMP_LO
+    if c == 1:
+        return AMP_LO * rng.choice([1.0 + 1e-6, 2.0, 10.0])
+    if c == 2:
+        return 10.0 ** -rng.randint(4, 8)
+    return rng.loguniform(AMP_LO, 1e-3)
+
+
+def simplex_wide(rng, n):
+    """amplitudes on the simplex over the whole interval the optimiser searches: well populated mixtures (as
+    `simplex`) and, in about four of ten cases, one up to n-1 rare components (rare population, superfluous component
+    of an over-specified model pushed towards its bound) sharing the simplex with the populated rest"""
+    a = simplex(rng, n)
+    if n == 1 or not rng.chance(0.4):
+        return a
+    rare = rng.sample(range(n), rng.choice([1] * 3 + list(range(1, n))))
+    small = {j: rare_amplitude(rng) for j in rare}
+    rest = sum(a[j] for j in range(n) if j not in small)
+    left = 1.0 - sum(small.values())
+    return [small[j] if j in small else min(AMP_HI, a[j] / rest * left) for j in range(n)]
+
+
+def gen_params(rng, n, wide=False):
     base = rng.loguniform(1e-2, 1e1)
     taus = [base] + [base * rng.loguniform(1.5, 1e3) for _ in range(n - 1)]
     rng.shuffle(taus)
-    return simplex(rng, n), taus
+    return (simplex_wide(rng, n) if wide else simplex(rng, n)), taus
 
 
 def gen_window(rng, taus, discrete):
@@ -1464,9 +1680,16 @@ def gen_size(rng, tier):
 
 def gen_lik(rng, tier, i):
     n = rng.choice([1, 2, 2, 3, 3])
-    amps, taus = gen_params(rng, n)
+    amps, taus = gen_params(rng, n, wide=True)
     discrete = rng.chance(0.5)
     t, tmin, tmax, step = gen_obs(rng, amps, taus, discrete, gen_size(rng, tier), rng.chance(0.4))
+    for j, a in enumerate(amps):
+        # a rare population that is nevertheless seen: one dwell time drawn from that component alone, inside the
+        # window of the observation it replaces (otherwise a sample of <= 2000 never contains one)
+        if a < 1e-3 and rng.chance(0.5):
+            i = rng.randint(0, len(t) - 1)
+            lim = [(v[i] if isinstance(v, list) else v) for v in (tmin, tmax, step)]
+            t[i] = sample_dwell(rng, [1.0], [taus[j]], to_f(lim[0]), to_f(lim[1]), lim[2])
     perm = list(range(n))
     if n > 1:
         while perm == list(range(n)):
@@ -1757,6 +1980,9 @@ def cases(tier, rng):
 
     # ---- small scope: likelihood on a parameter grid
     quarters = {1: [[1.0]], 2: [[0.25, 0.75], [0.5, 0.5]], 3: [[0.25, 0.25, 0.5], [0.5, 0.25, 0.25]]}
+    # ... and with a rare component: on the optimiser's amplitude bounds (1e-9, 1 - 1e-9) and three decades apart above them
+    quarters[2] += [[AMP_HI, AMP_LO], [1e-6, 1.0 - 1e-6], [1.0 - 1e-3, 1e-3]]
+    quarters[3] += [[AMP_LO, 1.0 - 2e-9, AMP_LO], [0.5, 1e-6, 0.5 - 1e-6]]
     lifetimes = {1: [[0.1], [1.0], [10.0]], 2: [[0.1, 1.0], [10.0, 1.0], [0.1, 10.0]], 3: [[0.1, 1.0, 10.0], [10.0, 0.1, 1.0]]}
     windows = [(0.0, 2.0), (0.0, 50.0), (0.0, "inf"), (0.5, 2.0), (0.5, 50.0), (0.5, "inf")]
     for n in (1, 2, 3):
@@ -1845,6 +2071,9 @@ def extra_coverage(results):
            "analyses-after-an-in-place-change": 0, "rows-handed-over-after-a-change": 0, "refused-edits": 0,
            "fit-refused-rows-outside-their-own-limits": 0}
     seq_edits = {}
+    rare_lik = 0
+    handed = {"fits": 0, "gradient-requests": 0, "inside-the-explored-family": 0, "fits-with-a-request-checked": 0,
+              "checked-with-an-amplitude-below-1e-3": 0, "checked-with-an-amplitude-below-1e-6": 0}
     pooled = {"fits-with-array-limits": 0, "several-distinct-windows": 0, "density-integrated": 0, "points-outside-some-window": 0}
     for r in results:
         c = r["case"]
@@ -1855,6 +2084,16 @@ def extra_coverage(results):
         if c["op"] == "fit" and " " in r["impl"][0]:
             st = r["impl"][0].split(" ")[-1]
             slsqp[st] = slsqp.get(st, 0) + 1
+        if c["op"] == "fit" and " " in r["impl"][0]:
+            handed["fits"] += 1
+            nv, ng = c.get("_visited", (0, 0))
+            handed["gradient-requests"] += nv
+            handed["inside-the-explored-family"] += ng
+            pts = {a.split(" ")[0] for a in r["impl"][-3:] if len(a.split(" ")) == 3}
+            handed["fits-with-a-request-checked"] += bool(pts)
+            lows = [min(dec_fl(p)[: c["ncomp"]]) for p in pts]
+            handed["checked-with-an-amplitude-below-1e-3"] += sum(1 for v in lows if v < 1e-3)
+            handed["checked-with-an-amplitude-below-1e-6"] += sum(1 for v in lows if v < 1e-6)
         if c["op"] == "fit" and " " in r["impl"][0] and not scalar_limits(c):
             cl = pool_classes(c)
             pooled["fits-with-array-limits"] += 1
@@ -1862,6 +2101,8 @@ def extra_coverage(results):
             pooled["density-integrated"] += "quadpool" in fit_layout(c)
             pooled["points-outside-some-window"] += sum(
                 1 for x in pool_points(c) if any(not (lo <= x < hi) for (lo, hi, _), _ in cl) and any(lo <= x < hi for (lo, hi, _), _ in cl))
+        if c["op"] == "lik" and min(c["amps"]) < 1e-4:
+            rare_lik += 1
         if c["op"] in ("lik", "fit"):
             k = len(c["amps"]) if c["op"] == "lik" else c["ncomp"]
             ncomp[f"{c['op']}-{k}"] = ncomp.get(f"{c['op']}-{k}", 0) + 1
@@ -1915,6 +2156,7 @@ def extra_coverage(results):
                 cons["several-free" if nfree >= 2 else ("all-fixed" if c["mask"] is not None and all(c["mask"][: c["n"]]) else "one-free")] += 1
     return {"case_kinds": kinds, "error_kinds": errs, "components": ncomp, "observations_per_case": nobs, "limits": limits,
             "windows": windows, "model_kind": model_kind, "slsqp_exit_of_fits": slsqp, "discrete_inf_sums_not_covering_support_skipped": uncovered,
-            "extraction": ext, "extraction_same_group_object_edited": dict(seq, edits=seq_edits), "amplitude_constraint": cons, "pdf_of_pooled_windows": pooled, "exhaustive": False,
+            "extraction": ext, "extraction_same_group_object_edited": dict(seq, edits=seq_edits), "amplitude_constraint": cons, "pdf_of_pooled_windows": pooled,
+            "gradient_handed_to_the_optimiser": handed, "lik_cases_with_an_amplitude_below_1e-4": rare_lik, "exhaustive": False,
             "exhaustive_note": "the small-scope streams enumerate their finite spaces completely; the random streams do not",
             "dropped_for_margin": dict(_DROPPED)}
